@@ -113,6 +113,11 @@ def constructed(rng):
         for da in (0, 0, 1, -1):
             if abs(a + da) <= M:
                 add(G.fD(sg(rng, a + da), p), G.fD(sg(rng, b), q))
+    # identical operands (x % x; the driver also runs `&x % &x` with both references to one object)
+    for s in range(19):
+        for c in (1, -1, 5, P10[s], M, -M, rng.randrange(-M, M) or 1, G.small_coeff(rng, 60) or 1):
+            add(G.fD(c, s), G.fD(c, s))
+            out.append("%s * %s %s" % (rng.choice(("rem", "crem")), G.fD(c, s), G.fD(c, s)))
     # common huge cofactor: x = a * g, y = b * g with b a small number whose decimal period is short (3, 9, 11, 37, 101,
     # ...): the running remainder of a digit-wise reduction is g * (a * 10^i mod b) and cycles with that period, so
     # it can repeat (or be a fixed point) before the reduction is complete; g large enough that the dividend cannot
